@@ -355,11 +355,16 @@ pub fn cleanup(tier: Tier, w: &Arc<World>) -> Scn {
         srv.dup = Some("1".into());
     }
     if d.chance("swarm.distinct_dirs", 1, 4) {
-        srv.send_dir = Some(sandbox.dir("pub"));
-        srv.recv_dir = Some(dir.clone());
-        srv.dir = sandbox.dir("base");
+        // uploads go to `dir`: named by -rd next to a -d that is something else, or by -d next to a -sd
+        if d.chance("swarm.dir_layout", 1, 2) {
+            srv.send_dir = Some(sandbox.dir("pub"));
+            srv.recv_dir = Some(dir.clone());
+            srv.dir = sandbox.dir("base");
+        } else {
+            srv.send_dir = Some(sandbox.dir("pub"));
+        }
     }
-    let mode = d.weighted("swarm.c13.mode", &[5, 3, 2]);
+    let mode = d.weighted("swarm.c13.mode", &[5, 3, 2, 2]);
     let oc = draw_options(&d, false, None);
     let max_blocks = if tier == Tier::Thorough { 40 } else { 24 };
     let len = draw_len(&d, oc.b, oc.w, max_blocks, 1 << 19).max(1);
@@ -416,7 +421,7 @@ pub fn cleanup(tier: Tier, w: &Arc<World>) -> Scn {
             }
             desc = format!("abort {} len={len} blocks={nblocks} opts={:?} cause={} step={step}", srv.describe(), oc.opts, ["silence", "error", "disk", "disk"][cause as usize]);
             let (p, c) = w.add_peer(Box::new(Writer::new(xc, data.to_vec())), false, 0);
-            specs.push(UploadSpec { client: c, peer: p, content: data.clone() });
+            specs.push(UploadSpec { client: c, peer: p, content: data.clone(), name: None });
             starts.push((p, 10 * MS));
         }
         1 => {
@@ -431,8 +436,32 @@ pub fn cleanup(tier: Tier, w: &Arc<World>) -> Scn {
             fc.sched_w = [4, 1, 1, 1, 1];
             desc = format!("retransmitted-WRQ {} len={len} opts={:?} budget={} stall_w={}", srv.describe(), oc.opts, fc.budget, fc.stall_w);
             let (p, c) = w.add_peer(Box::new(Writer::new(xc, data.to_vec())), false, 0);
-            specs.push(UploadSpec { client: c, peer: p, content: data.clone() });
+            specs.push(UploadSpec { client: c, peer: p, content: data.clone(), name: None });
             starts.push((p, 10 * MS));
+        }
+        3 => {
+            // (iii) one client socket, two names in a row: the first upload is abandoned, the next one
+            // completes while the abandoned one's worker may still be waiting
+            let mut xa = mk("a.bin", &oc);
+            xa.resend_request = false;
+            let step = 1 + d.range("swarm.c13.step", nblocks.min(30) + 1);
+            xa.script.push((step, Adv::Silent));
+            let mut xb = mk("b.bin", &oc);
+            xb.resend_request = false;
+            let data_b = Arc::new(content(len / 2 + 9, 33));
+            for o in xb.opts.iter_mut() {
+                if o.0 == "tsize" {
+                    o.1 = data_b.len().to_string();
+                }
+            }
+            let (pa, ca) = w.add_peer(Box::new(Writer::new(xa, data.to_vec())), false, 0);
+            let (pb, cb) = w.add_peer_on(Box::new(Writer::new(xb, data_b.to_vec())), pa);
+            specs.push(UploadSpec { client: ca, peer: pa, content: data.clone(), name: Some("a.bin") });
+            specs.push(UploadSpec { client: cb, peer: pb, content: data_b, name: Some("b.bin") });
+            let gap = d.pick("swarm.c13.second_start", &[SEC, 20 * MS, 3 * SEC, 12 * SEC, 40 * SEC]);
+            desc = format!("one-socket-two-names {} len={len} opts={:?} a.bin abandoned at step {step}, b.bin starts after {} ms", srv.describe(), oc.opts, gap / MS);
+            starts.push((pa, 10 * MS));
+            starts.push((pb, 10 * MS + gap));
         }
         _ => {
             // (ii)b two clients, one name: the first stalls and dies, the second completes
@@ -446,8 +475,8 @@ pub fn cleanup(tier: Tier, w: &Arc<World>) -> Scn {
             let data_b = Arc::new(content(len / 2 + 7, 32));
             let (pa, ca) = w.add_peer(Box::new(Writer::new(xa, data.to_vec())), false, 0);
             let (pb, cb) = w.add_peer(Box::new(Writer::new(xb, data_b.to_vec())), false, 0);
-            specs.push(UploadSpec { client: ca, peer: pa, content: data.clone() });
-            specs.push(UploadSpec { client: cb, peer: pb, content: data_b });
+            specs.push(UploadSpec { client: ca, peer: pa, content: data.clone(), name: None });
+            specs.push(UploadSpec { client: cb, peer: pb, content: data_b, name: None });
             let gap = d.pick("swarm.c13.second_start", &[20 * MS, 10 * MS + 50 * US, SEC, 3 * SEC, 40 * SEC]);
             desc = format!("two-clients-one-name {} len={len} opts={:?} A dies at step {step}, B starts after {} ms", srv.describe(), oc.opts, gap / MS);
             starts.push((pa, 10 * MS));
